@@ -1638,6 +1638,35 @@ def m_result_is(ok):
     return model
 
 
+def m_partition_point(ex, st, call, args):
+    """<[T]>::partition_point(s, pred) on a slice of concrete length whose elements are partitioned by pred (the documented precondition): the
+    index of the first element for which pred is false - one path per index, with pred decided true before it and false at it"""
+    if not ex.concrete_iters:
+        return NotImplemented
+    xs = _concrete_items(ex, st, args[0])
+    if xs is None or len(xs) > 8:
+        return NotImplemented
+    try:
+        f = args[1]
+        fv = ex.load(st, f[1]) if f[0] == "ref" else (f[1] if f[0] == "&" else f)
+        if fv[0] != "closure":
+            return NotImplemented
+    except Exception:
+        return NotImplemented
+
+    def gen(s, i):
+        if i == len(xs):
+            yield s, "ret", ("const", i)
+            return
+        for s2, v in _call_closure_paths(ex, s, args[1], [("&", xs[i])]):
+            for s3, b in _fork_bool(ex, s2, v):
+                if b:
+                    yield from gen(s3, i + 1)
+                else:
+                    yield s3, "ret", ("const", i)
+    return gen(st, 0)
+
+
 def m_bool_then(ex, st, call, args):
     """bool::then(c, f) = if c { Some(f()) } else { None }"""
     try:
@@ -1816,6 +1845,7 @@ DEFAULT_MODELS = {
     "core::option::Option::<T>::or": m_option_or,
     "core::option::Option::<T>::map_or": m_option_map_or,
     "core::bool::<impl bool>::then": m_bool_then,
+    "core::slice::<impl [T]>::partition_point": m_partition_point,
     "<core::option::Option<T> as core::cmp::PartialEq>::eq": m_option_eq,
     "core::result::Result::<T, E>::is_ok": m_result_is(True),
     "core::result::Result::<T, E>::is_err": m_result_is(False),
